@@ -885,6 +885,110 @@ def _(m):
     M.endCollect = classmethod(endCollect)
 
 
+# ------------------------------------------------------------------------------- round-10 oracles (class-level state, edges)
+@mutant("c10_colour_cycle_not_rewound_by_reset", "C10")
+def _(m):
+    import itertools
+    IU = __import__("fibertree.graphics.image_utils", fromlist=["ImageUtils"]).ImageUtils
+    cyc = {"it": itertools.cycle(IU.hl_colors)}
+
+    def getColor(worker):
+        if worker in IU.hl_map:
+            return IU.hl_map[worker]
+        color = next(cyc["it"])
+        IU.hl_map[worker] = color
+        return color
+    IU.getColor = staticmethod(getColor)
+
+
+@mutant("c19_entry_layout_shared_by_all_models", "C19")
+def _(m):
+    I = m["intersect"]
+    I.Intersector.columns = {}
+    patch_method(I.Intersector, "_startTraces", "        self.num_ranks = (len(trace0[0]) - 1) // 2",
+                 "        self.num_ranks = (len(trace0[0]) - 1) // 2\n        self.columns[\"n\"] = self.num_ranks")
+    patch_method(I.Intersector, "_splitFibers", "    fibers = {}", "    self.num_ranks = self.columns.get(\"n\", self.num_ranks)\n    fibers = {}")
+
+
+@mutant("c19_headers_removed_from_the_callers_batch", "C19")
+def _(m):
+    I = m["intersect"]
+    patch_method(I.Intersector, "_startTraces", "        trace0 = trace0[1:]\n        trace1 = trace1[1:]", "        del trace0[0]\n        del trace1[0]")
+
+
+@mutant("c15_begincollect_removes_files_by_prefix_glob", "C15")
+def _(m):
+    import glob as _glob, os as _os
+    M = m["Metrics"]
+    orig = M.__dict__["beginCollect"].__func__
+
+    def beginCollect(cls, prefix=None):
+        if prefix is not None:
+            for fn in _glob.glob(_glob.escape(prefix) + "-*.csv"):
+                try:
+                    _os.remove(fn)
+                except OSError:
+                    pass
+        return orig(cls, prefix)
+    M.beginCollect = classmethod(beginCollect)
+
+
+@mutant("c15_numops_empty_report_means_current", "C15")
+def _(m):
+    C = m["compute"].Compute
+    orig = C.__dict__["numOps"].__func__
+
+    def numOps(dump, op):
+        if not dump:
+            dump = m["Metrics"].dump() or {}
+        return orig(dump, op)
+    C.numOps = staticmethod(numOps)
+
+
+@mutant("c13_fromrandom_memo_ignores_default", "C13")
+def _(m):
+    import copy as _copy
+    F = m["Fiber"]
+    orig = F.__dict__["fromRandom"].__func__
+    memo = {}
+
+    def fromRandom(cls, shape, density, interval=10, seed=None, default=0):
+        if seed is None:
+            return orig(cls, shape, density, interval, seed=seed, default=default)
+        key = (repr(shape), repr(density), interval, seed)
+        if key not in memo:
+            memo[key] = orig(cls, shape, density, interval, seed=seed, default=default)
+        return _copy.deepcopy(memo[key])
+    F.fromRandom = classmethod(fromRandom)
+
+
+@mutant("c06_rank_id_depth_remembered_for_the_process", "C06")
+def _(m):
+    F = m["Fiber"]
+    orig = F._rankid2depth
+    memo = {}
+
+    def _rankid2depth(self, rankid):
+        if rankid not in memo:
+            memo[rankid] = orig(self, rankid)
+        return memo[rankid]
+    F._rankid2depth = _rankid2depth
+
+
+@mutant("c03_fiber_imul_scalar_stores_new_boxes", "C03")
+def _(m):
+    F = m["Fiber"]
+    orig = F.__imul__
+
+    def __imul__(self, other):
+        if isinstance(other, m["Fiber"]) or not self.payloads or isinstance(self.payloads[0], m["Fiber"]):
+            return orig(self, other)
+        k = m["Payload"].get(other)
+        self.payloads = [m["Payload"](m["Payload"].get(p) * k) for p in self.payloads]
+        return self
+    F.__imul__ = __imul__
+
+
 def apply(name):
     if name not in MUTANTS:
         raise SystemExit(f"unknown mutant {name}; known: {sorted(MUTANTS)}")
